@@ -54,6 +54,9 @@ type cCluster struct {
 	scheme string
 }
 
+// cClusterLateLoad lists the nodes of the next cluster whose beacon is loaded over the control API after the daemon started.
+var cClusterLateLoad = map[int]bool{}
+
 // cClusterKeepLogs makes the daemons of the next cluster keep their log lines (C15 scans them).
 var cClusterKeepLogs bool
 
@@ -72,17 +75,36 @@ func newCCluster(n int, seed uint64, scheme string) (*cCluster, error) {
 		conf := NewConfig(nd.log, WithConfigFolder(dir), WithPrivateListenAddress(addr), WithControlPort(test.FreePort()), WithDBStorageEngine(chain.BoltDB),
 			WithDkgKickoffGracePeriod(300*time.Millisecond), WithDkgPhaseTimeout(4*time.Second), WithCallOption(grpc.WaitForReady(true)))
 		conf.clock = c.clock
-		ks := key.NewFileStore(conf.ConfigFolderMB(), "default")
-		if err := ks.SaveKeyPair(nd.pair); err != nil {
-			return nil, err
+		if !cClusterLateLoad[i] {
+			ks := key.NewFileStore(conf.ConfigFolderMB(), "default")
+			if err := ks.SaveKeyPair(nd.pair); err != nil {
+				return nil, err
+			}
+		} else {
+			_ = os.MkdirAll(conf.ConfigFolderMB(), 0o700) // a daemon that hosts no beacon yet
 		}
 		dd, err := NewDrandDaemon(context.Background(), conf)
 		if err != nil {
 			return nil, err
 		}
 		nd.dd = dd
-		if err := dd.LoadBeaconsFromDisk(context.Background(), "", false, ""); err != nil {
+		// (a daemon that hosts no beacon yet is started the way `drand start --beacon-id ""` does)
+		if err := dd.LoadBeaconsFromDisk(context.Background(), "", cClusterLateLoad[i], ""); err != nil {
 			return nil, err
+		}
+		if cClusterLateLoad[i] {
+			// the operator creates the key pair later and loads the beacon into the running daemon over the control port: the
+			// context of that request ends with the call
+			ks := key.NewFileStore(conf.ConfigFolderMB(), "default")
+			if err := ks.SaveKeyPair(nd.pair); err != nil {
+				return nil, err
+			}
+			rctx, rcancel := context.WithCancel(context.Background())
+			_, lerr := dd.LoadBeacon(rctx, &drand.LoadBeaconRequest{Metadata: &drand.Metadata{BeaconID: "default"}})
+			rcancel()
+			if lerr != nil {
+				return nil, fmt.Errorf("load beacon over the control API: %w", lerr)
+			}
 		}
 		c.nodes = append(c.nodes, nd)
 	}
